@@ -79,17 +79,22 @@ PREDICATES.update({
   'HeapMem': (['s'], 'HeapInv(s) and HM_all(s)'),
 })
 
+_AP_EXT = ['implies(dyn_is(self, ApertureBalancerSink), ApP1(cast(self, ApertureBalancerSink)))', 'implies(dyn_is(self, ApertureBalancerSink), ApP2(cast(self, ApertureBalancerSink)))', 'implies(dyn_is(self, ApertureBalancerSink), HM_inj(cast(self, ApertureBalancerSink)))', 'implies(dyn_is(self, ApertureBalancerSink), ApP4(cast(self, ApertureBalancerSink)))', 'implies(dyn_is(self, ApertureBalancerSink), ApP5(cast(self, ApertureBalancerSink)))', 'implies(dyn_is(self, ApertureBalancerSink), ApIdleKnown(cast(self, ApertureBalancerSink)))', 'implies(dyn_is(self, ApertureBalancerSink), ApHeapKnown(cast(self, ApertureBalancerSink)))', 'implies(dyn_is(self, ApertureBalancerSink), ApSup(cast(self, ApertureBalancerSink)))', 'implies(dyn_is(self, ApertureBalancerSink), ApCfg(cast(self, ApertureBalancerSink)))']
+
 _HOOK_ENS = [
   'HeapInv(self)', 'self._downq == old(self._downq)', 'self._heap[0] == old(self._heap[0])',
   'forall_ref(r, Node, implies(old(allocated(r)), r.g_out == old(r.g_out) and r.load == old(r.load) and r.g_inq == old(r.g_inq) and '
-  '           r.downq == old(r.downq) and r.g_rank == old(r.g_rank) and r.endpoint == old(r.endpoint) and r.channel == old(r.channel)), r.g_out)',
-  # an existing member may be closed by the hook only if it holds no request (a contracted idle member)
-  'forall_ref(r, Node, implies(old(allocated(r)) and r.g_out > 0, r.channel.state == old(r.channel.state)), r.g_out)',
-  'forall_ref(r, Node, implies(old(allocated(r)), r.channel.state == old(r.channel.state) or r.channel.state == ChannelState.Closed), r.g_out)',
+  '           r.downq == old(r.downq) and r.g_rank == old(r.g_rank) and r.endpoint == old(r.endpoint)), r.g_out)',
+  'forall_ref(r, Node, implies(old(allocated(r)), r.channel == old(r.channel)), r.channel)',
+  # a hook closes no up-marked member that holds requests (the aperture retires idle members, and down-marked ones at once)
+  'forall_ref(r, Node, implies(old(allocated(r)) and r.g_out > 0 and r.load < 0, r.channel.state == old(r.channel.state)), r.g_out)',
+  'forall_ref(r, Node, implies(old(allocated(r)), r.channel.state == old(r.channel.state) or r.channel.state == ChannelState.Closed), r.channel)',
 ]
 _HOOK_MOD = ['Node.index', 'Node.load', 'Node.downq', 'Node.avg_load', 'Node.channel', 'Node.endpoint', 'Node.g_out', 'Node.g_inq', 'Node.g_rank',
              'list[Node]', 'HeapBalancerSink._size', 'HeapBalancerSink.g_added', 'HeapBalancerSink.g_removed',
-             'Channel.state', 'Channel.g_closes', 'Channel.g_opens', '$cls']
+             'Channel.state', 'Channel.g_closes', 'Channel.g_opens', '$cls',
+             # state of the aperture balancer's adjustment (untouched by the heap balancer's own hooks)
+             'set[any]', 'list[any]', 'dict[any,Node]', 'ApertureBalancerSink._total', 'ApertureBalancerSink.g_load']
 
 _SWAP_FRAME = [
   'len(heap) == old(len(heap))',
@@ -195,25 +200,25 @@ FUNCTIONS = {
   # or on the size.
   'HeapBalancerSink._OnNodeDown': dict(
     cls='HeapBalancerSink', params={'node': 'Node'}, returns='AsyncResult',
-    requires=['HeapInv(self)'],
+    requires=['HeapInv(self)', 'allocated(node)'],
     ensures=_HOOK_ENS + ['self._size >= old(self._size)'],
     modifies=_HOOK_MOD, allocates='any', drop=['AsyncResult'], props=['C03', 'C04'],
     # the heap balancer's own hooks change no membership (C05 is claimed for the heap balancer only)
-    aspects={'mem': dict(ensures=['forall_ref(r, Node, inheap(self._heap, r) == old(inheap(self._heap, r)), r.index)', 'implies(old(HM_all(self)), self._heap[0].endpoint is None and allocated(self._servers) and allocated(self.g_node))', 'implies(old(HM_all(self)), HM_sub(self))', 'implies(old(HM_all(self)), HM_inj(self))', 'implies(old(HM_all(self)), HM_sup1(self))', 'implies(old(HM_all(self)), HM_sup2(self))', 'implies(old(HM_all(self)), HM_sup3(self))'], props=['C05'])},
+    aspects={'ap': dict(requires=_AP_EXT, ensures=_AP_EXT, props=['C06']), 'mem': dict(ensures=['forall(e, "any", has_key(self.g_node, e) == old(has_key(self.g_node, e)) and self.g_node[e] == old(self.g_node[e]))', 'self.g_node == old(self.g_node)', 'forall_ref(r, Node, inheap(self._heap, r) == old(inheap(self._heap, r)), r.index)', 'implies(old(HM_all(self)), self._heap[0].endpoint is None and allocated(self._servers) and allocated(self.g_node))', 'implies(old(HM_all(self)), HM_sub(self))', 'implies(old(HM_all(self)), HM_inj(self))', 'implies(old(HM_all(self)), HM_sup1(self))', 'implies(old(HM_all(self)), HM_sup2(self))', 'implies(old(HM_all(self)), HM_sup3(self))'], props=['C05'])},
   ),
   'HeapBalancerSink._OnPut': dict(
     cls='HeapBalancerSink', params={'node': 'Node'},
     requires=['HeapInv(self)'],
     ensures=_HOOK_ENS,
     modifies=_HOOK_MOD, allocates='any', drop=['AsyncResult'], props=['C03', 'C04'],
-    aspects={'mem': dict(ensures=['forall_ref(r, Node, inheap(self._heap, r) == old(inheap(self._heap, r)), r.index)', 'implies(old(HM_all(self)), self._heap[0].endpoint is None and allocated(self._servers) and allocated(self.g_node))', 'implies(old(HM_all(self)), HM_sub(self))', 'implies(old(HM_all(self)), HM_inj(self))', 'implies(old(HM_all(self)), HM_sup1(self))', 'implies(old(HM_all(self)), HM_sup2(self))', 'implies(old(HM_all(self)), HM_sup3(self))'], props=['C05'])},
+    aspects={'ap': dict(requires=_AP_EXT, ensures=_AP_EXT, props=['C06']), 'mem': dict(ensures=['forall(e, "any", has_key(self.g_node, e) == old(has_key(self.g_node, e)) and self.g_node[e] == old(self.g_node[e]))', 'self.g_node == old(self.g_node)', 'forall_ref(r, Node, inheap(self._heap, r) == old(inheap(self._heap, r)), r.index)', 'implies(old(HM_all(self)), self._heap[0].endpoint is None and allocated(self._servers) and allocated(self.g_node))', 'implies(old(HM_all(self)), HM_sub(self))', 'implies(old(HM_all(self)), HM_inj(self))', 'implies(old(HM_all(self)), HM_sup1(self))', 'implies(old(HM_all(self)), HM_sup2(self))', 'implies(old(HM_all(self)), HM_sup3(self))'], props=['C05'])},
   ),
   'HeapBalancerSink._OnGet': dict(
     cls='HeapBalancerSink', params={'node': 'Node'},
     requires=['HeapInv(self)'],
     ensures=_HOOK_ENS,
     modifies=_HOOK_MOD, allocates='any', drop=['AsyncResult'], props=['C03', 'C04'],
-    aspects={'mem': dict(ensures=['forall_ref(r, Node, inheap(self._heap, r) == old(inheap(self._heap, r)), r.index)', 'implies(old(HM_all(self)), self._heap[0].endpoint is None and allocated(self._servers) and allocated(self.g_node))', 'implies(old(HM_all(self)), HM_sub(self))', 'implies(old(HM_all(self)), HM_inj(self))', 'implies(old(HM_all(self)), HM_sup1(self))', 'implies(old(HM_all(self)), HM_sup2(self))', 'implies(old(HM_all(self)), HM_sup3(self))'], props=['C05'])},
+    aspects={'ap': dict(requires=_AP_EXT, ensures=_AP_EXT, props=['C06']), 'mem': dict(ensures=['forall(e, "any", has_key(self.g_node, e) == old(has_key(self.g_node, e)) and self.g_node[e] == old(self.g_node[e]))', 'self.g_node == old(self.g_node)', 'forall_ref(r, Node, inheap(self._heap, r) == old(inheap(self._heap, r)), r.index)', 'implies(old(HM_all(self)), self._heap[0].endpoint is None and allocated(self._servers) and allocated(self.g_node))', 'implies(old(HM_all(self)), HM_sub(self))', 'implies(old(HM_all(self)), HM_inj(self))', 'implies(old(HM_all(self)), HM_sup1(self))', 'implies(old(HM_all(self)), HM_sup2(self))', 'implies(old(HM_all(self)), HM_sup3(self))'], props=['C05'])},
   ),
 
   'HeapBalancerSink.__Get': dict(
@@ -232,7 +237,7 @@ FUNCTIONS = {
     ],
     allocates='any',
     # C05: taking a member for a request changes nobody's membership
-    aspects={'mem': dict(ensures=['forall_ref(r, Node, inheap(self._heap, r) == old(inheap(self._heap, r)), r.index)', 'implies(old(HM_all(self)), self._heap[0].endpoint is None and allocated(self._servers) and allocated(self.g_node))', 'implies(old(HM_all(self)), HM_sub(self))', 'implies(old(HM_all(self)), HM_inj(self))', 'implies(old(HM_all(self)), HM_sup1(self))', 'implies(old(HM_all(self)), HM_sup2(self))', 'implies(old(HM_all(self)), HM_sup3(self))'], loops={0: ['forall_ref(r, Node, inheap(self._heap, r) == old(inheap(self._heap, r)), r.index)', 'implies(old(HM_all(self)), self._heap[0].endpoint is None and allocated(self._servers) and allocated(self.g_node))', 'implies(old(HM_all(self)), HM_sub(self))', 'implies(old(HM_all(self)), HM_inj(self))', 'implies(old(HM_all(self)), HM_sup1(self))', 'implies(old(HM_all(self)), HM_sup2(self))', 'implies(old(HM_all(self)), HM_sup3(self))'], 1: ['forall_ref(r, Node, inheap(self._heap, r) == old(inheap(self._heap, r)), r.index)', 'implies(old(HM_all(self)), self._heap[0].endpoint is None and allocated(self._servers) and allocated(self.g_node))', 'implies(old(HM_all(self)), HM_sub(self))', 'implies(old(HM_all(self)), HM_inj(self))', 'implies(old(HM_all(self)), HM_sup1(self))', 'implies(old(HM_all(self)), HM_sup2(self))', 'implies(old(HM_all(self)), HM_sup3(self))']}, props=['C05'])},
+    aspects={'ap': dict(requires=_AP_EXT, ensures=_AP_EXT, loops={0: _AP_EXT, 1: _AP_EXT}, props=['C06']), 'mem': dict(ensures=['forall_ref(r, Node, inheap(self._heap, r) == old(inheap(self._heap, r)), r.index)', 'implies(old(HM_all(self)), self._heap[0].endpoint is None and allocated(self._servers) and allocated(self.g_node))', 'implies(old(HM_all(self)), HM_sub(self))', 'implies(old(HM_all(self)), HM_inj(self))', 'implies(old(HM_all(self)), HM_sup1(self))', 'implies(old(HM_all(self)), HM_sup2(self))', 'implies(old(HM_all(self)), HM_sup3(self))'], loops={0: ['forall_ref(r, Node, inheap(self._heap, r) == old(inheap(self._heap, r)), r.index)', 'implies(old(HM_all(self)), self._heap[0].endpoint is None and allocated(self._servers) and allocated(self.g_node))', 'implies(old(HM_all(self)), HM_sub(self))', 'implies(old(HM_all(self)), HM_inj(self))', 'implies(old(HM_all(self)), HM_sup1(self))', 'implies(old(HM_all(self)), HM_sup2(self))', 'implies(old(HM_all(self)), HM_sup3(self))'], 1: ['forall_ref(r, Node, inheap(self._heap, r) == old(inheap(self._heap, r)), r.index)', 'implies(old(HM_all(self)), self._heap[0].endpoint is None and allocated(self._servers) and allocated(self.g_node))', 'implies(old(HM_all(self)), HM_sub(self))', 'implies(old(HM_all(self)), HM_inj(self))', 'implies(old(HM_all(self)), HM_sup1(self))', 'implies(old(HM_all(self)), HM_sup2(self))', 'implies(old(HM_all(self)), HM_sup3(self))']}, props=['C05'])},
     lemmas=['k: lemma_root_min(self._heap, self._size, k)'],
     modifies=_HOOK_MOD + ['HeapBalancerSink._downq'],
     ghost=[
@@ -262,9 +267,9 @@ FUNCTIONS = {
              # a node that has left the heap is closed exactly when its last request is released
              'implies(old(n.index) < 0 and n.g_out == 0, n.channel.state == ChannelState.Closed or n.channel.state == old(n.channel.state))',
              # a release never closes a member that still holds requests (the aperture hook may retire an idle one)
-             'forall_ref(r, Node, implies(old(allocated(r)) and r.g_out > 0 and r.channel != n.channel, r.channel.state == old(r.channel.state)), r.g_out)',
-             'implies(n.g_out > 0, n.channel.state == old(n.channel.state))'],
-    aspects={'mem': dict(ensures=['forall_ref(r, Node, inheap(self._heap, r) == old(inheap(self._heap, r)), r.index)', 'implies(old(HM_all(self)), self._heap[0].endpoint is None and allocated(self._servers) and allocated(self.g_node))', 'implies(old(HM_all(self)), HM_sub(self))', 'implies(old(HM_all(self)), HM_inj(self))', 'implies(old(HM_all(self)), HM_sup1(self))', 'implies(old(HM_all(self)), HM_sup2(self))', 'implies(old(HM_all(self)), HM_sup3(self))'], props=['C05'])},
+             'forall_ref(r, Node, implies(old(allocated(r)) and r.g_out > 0 and r.load < 0 and r.channel != n.channel, r.channel.state == old(r.channel.state)), r.g_out)',
+             'implies(n.g_out > 0 and n.load < 0, n.channel.state == old(n.channel.state))'],
+    aspects={'ap': dict(requires=_AP_EXT, ensures=_AP_EXT, props=['C06']), 'mem': dict(ensures=['forall_ref(r, Node, inheap(self._heap, r) == old(inheap(self._heap, r)), r.index)', 'implies(old(HM_all(self)), self._heap[0].endpoint is None and allocated(self._servers) and allocated(self.g_node))', 'implies(old(HM_all(self)), HM_sub(self))', 'implies(old(HM_all(self)), HM_inj(self))', 'implies(old(HM_all(self)), HM_sup1(self))', 'implies(old(HM_all(self)), HM_sup2(self))', 'implies(old(HM_all(self)), HM_sup3(self))'], props=['C05'])},
     modifies=_HOOK_MOD, allocates='any',
     ghost=[
       {'after': 'n.load -= 1', 'do': ['n.g_out = n.g_out - 1']},
@@ -302,6 +307,12 @@ def lemma_root_min(heap, n, k):
              'self.g_added is not None and fresh(self.g_added) and inheap(self._heap, self.g_added) and self.g_added.endpoint == endpoint',
              'forall_ref(r, Node, implies(r != self.g_added, inheap(self._heap, r) == old(inheap(self._heap, r))), r.index)',
              'forall_ref(r, Node, implies(old(allocated(r)), r.endpoint == old(r.endpoint)), r.endpoint)',
+             'forall_ref(r, Node, implies(old(allocated(r)), r.endpoint == old(r.endpoint) and r.g_inq == old(r.g_inq) and r.downq == old(r.downq)), r.g_out)',
+             'forall_ref(r, Node, implies(old(allocated(r)), r.channel == old(r.channel)), r.channel)',
+             # the one new node has a channel of its own, just created
+             'allocated(self.g_added.channel) and fresh(self.g_added.channel)',
+             'forall_ref(r, Node, implies(allocated(r) and not old(allocated(r)), r == self.g_added), r.channel)',
+             'self._downq == old(self._downq)',
              'self._heap[0] == old(self._heap[0])'], props=['C05'])},
     modifies=['Node.load', 'Node.index', 'Node.downq', 'Node.avg_load', 'Node.channel', 'Node.endpoint',
               'Node.g_out', 'Node.g_inq', 'list[Node]', 'HeapBalancerSink._size', 'HeapBalancerSink.g_added', 'Channel.state', 'Channel.g_closes', '$cls'],
@@ -331,6 +342,7 @@ def lemma_root_min(heap, n, k):
              'implies(not old(put_called[0]), n.g_out == old(n.g_out) - 1)',
              'forall_ref(r, Node, implies(r != n and old(allocated(r)), r.g_out == old(r.g_out)), r.g_out)'],
     modifies=_HOOK_MOD + ['list[bool]'], allocates='any',
+    aspects={'ap': dict(requires=_AP_EXT, ensures=_AP_EXT, props=['C06'])},
     props=['C04'],
   ),
 
@@ -363,6 +375,7 @@ def lemma_root_min(heap, n, k):
         'prove(HeapInv(self), "invariant-before-forward")',
       ]},
     ],
+    aspects={'ap': dict(requires=_AP_EXT, ghost=[{'before': 'channel.AsyncProcessRequest(sink_stack, msg, stream, headers)', 'do': ['prove(ApExt(self), "aperture-invariant-before-forward")']}], props=['C06'])},
     props=['C03', 'C04'],
   ),
 
@@ -393,7 +406,13 @@ def lemma_root_min(heap, n, k):
              'implies(result, let(n, self.g_removed, old(inheap(self._heap, n))))',
              'forall_ref(r, Node, implies(not result or r != self.g_removed, inheap(self._heap, r) == old(inheap(self._heap, r))), r.index)',
              'implies(not result and self._heap[0].endpoint != endpoint, forall_ref(r, Node, implies(inheap(self._heap, r), r.endpoint != endpoint), r.index))',
-             'self._heap[0] == old(self._heap[0])'],
+             'self._heap[0] == old(self._heap[0])', 'self._downq == old(self._downq)',
+             # only the removed member's channel can change state, and only to Closed -- and not while it is up and holds requests
+             'forall_ref(c, Channel, implies(old(allocated(c)) and (not result or c != self.g_removed.channel), c.state == old(c.state)), c.state)',
+             'implies(result, let(n, self.g_removed, n.channel.state == old(n.channel.state) or n.channel.state == ChannelState.Closed))',
+             'implies(result and self.g_removed.g_out > 0 and self.g_removed.load < 0, let(n, self.g_removed, n.channel.state == old(n.channel.state)))',
+             'forall_ref(r, Node, implies(old(allocated(r)), r.endpoint == old(r.endpoint) and r.load == old(r.load) and r.g_inq == old(r.g_inq) and r.downq == old(r.downq)), r.g_out)',
+             'forall_ref(r, Node, implies(old(allocated(r)), r.channel == old(r.channel)), r.channel)'],
       ghost=[{'after': 'i = node.index', 'do': ['prove(inheap(self._heap, node) and node.endpoint == endpoint, "found-node-is-a-member-with-this-endpoint")']}],
       props=['C05'])},
     modifies=['Node.index', 'list[Node]', 'HeapBalancerSink._size', 'HeapBalancerSink.g_removed', 'Channel.state', 'Channel.g_closes'],
